@@ -8,8 +8,8 @@ bind : state injection (as C12) — the post-layout of every production compacti
        the one Out(...) computes, so a version kept or dropped against the rules is a mismatch."""
 import os, sys
 sys.path.insert(0, os.path.dirname(os.path.abspath(__file__)))
-import vlib
 import C12
+import vlib
 
 
 def body(c):
